@@ -12,6 +12,7 @@ import (
 	"verif/internal/canon"
 	"verif/internal/drive"
 	"verif/internal/fw"
+	"verif/internal/gen"
 	"verif/internal/perturb"
 	"verif/internal/quiesce"
 	"verif/internal/step"
@@ -27,6 +28,8 @@ type c19Case struct {
 	Layout  []float64 `json:"layout"`  // startX, startY, colGap, rowGap, procGap ; nil = DefaultAutoLayoutConfig
 	N       int       `json:"n"`       // rawids: number of ids drawn
 	Reuse   int       `json:"reuse"`   // 0 fresh ProcessBuilder per process; 1 one builder reused after Out(); 2 reused builder that already produced a discarded process
+	AST     *gen.Block `json:"ast,omitempty"` // graph: a parsed block-structured process handed to AddProcess (branches, loops, sub-processes)
+	Twice   bool      `json:"twice,omitempty"` // graph: AutoLayout called twice
 }
 
 func c19Activity(ti int, preset string) schema.ActivityInterface {
@@ -125,6 +128,19 @@ func c19Cases(tier string, seed uint64) []fw.Case {
 			procs = append(procs, seq)
 		}
 		add(procs, rng.Bool())
+	}
+	// processes that are not chains: parsed block-structured programs (branches, joins, loops = back edges,
+	// sub-processes, several end events) handed to AddProcess and laid out
+	gprogs := forcedPairs(rng)
+	ng := 60
+	if tier == "thorough" {
+		ng = 600
+	}
+	gprogs = append(gprogs, randomProgs(rng, ng, 3, 14)...)
+	for i, p := range gprogs {
+		c := c19Case{Kind: "graph", AST: p.AST, Layout: layouts[i%len(layouts)], Twice: i%4 == 3}
+		c.Name = fmt.Sprintf("graph/%s/layout%d", p.Name, i%len(layouts))
+		cs = append(cs, fw.MkCase("graph", &c))
 	}
 	raw := 500000
 	if tier == "thorough" {
@@ -258,103 +274,7 @@ func c19Build(c *c19Case, env *fw.Env, v *fw.V) {
 		return
 	}
 	// 6. layout
-	if d := defs.DiagramField; d != nil && d.BPMNPlaneField != nil {
-		shapes := map[string]rect{}
-		nShapes := 0
-		for i := range d.BPMNPlaneField.BPMNShapeFields {
-			sh := &d.BPMNPlaneField.BPMNShapeFields[i]
-			nShapes++
-			b := sh.BoundsField
-			if b == nil {
-				v.Violate("layout-no-bounds", cls, "shape without bounds")
-				return
-			}
-			r := rect{b.XField, b.YField, b.WidthField, b.HeightField}
-			for _, f := range []float64{r.x, r.y, r.w, r.h} {
-				if math.IsNaN(f) || math.IsInf(f, 0) {
-					v.Violate("layout-non-finite", cls, "shape %v has a non-finite coordinate", r)
-					return
-				}
-			}
-			shapes[string(*sh.BpmnElementField)] = r
-		}
-		nNodes, nFlows := 0, 0
-		for pi := range *defs.Processes() {
-			p := &(*defs.Processes())[pi]
-			for _, fe := range p.FlowElements() {
-				if _, ok := fe.(schema.FlowNodeInterface); ok {
-					nNodes++
-				}
-			}
-			nFlows += len(*p.SequenceFlows())
-		}
-		if nShapes != nNodes || len(shapes) != nNodes {
-			v.Violate("layout-shape-count", cls, "%d shapes (%d distinct elements) for %d flow nodes", nShapes, len(shapes), nNodes)
-			return
-		}
-		if ne := len(d.BPMNPlaneField.BPMNEdgeFields); ne != nFlows {
-			v.Violate("layout-edge-count", cls, "%d edges for %d sequence flows", ne, nFlows)
-			return
-		}
-		onBorder := func(r rect, x, y float64) bool {
-			const eps = 1e-6 * 1e6
-			inX := x >= r.x-eps && x <= r.x+r.w+eps
-			inY := y >= r.y-eps && y <= r.y+r.h+eps
-			onV := math.Abs(x-r.x) <= eps || math.Abs(x-(r.x+r.w)) <= eps
-			onH := math.Abs(y-r.y) <= eps || math.Abs(y-(r.y+r.h)) <= eps
-			return inX && inY && (onV || onH)
-		}
-		for i := range d.BPMNPlaneField.BPMNEdgeFields {
-			e := &d.BPMNPlaneField.BPMNEdgeFields[i]
-			wps := e.WaypointField
-			if len(wps) < 2 {
-				v.Violate("layout-edge-waypoints", cls, "edge with %d waypoints", len(wps))
-				return
-			}
-			src, ok1 := shapes[string(*e.SourceElementField)]
-			dst, ok2 := shapes[string(*e.TargetElementField)]
-			if !ok1 || !ok2 {
-				v.Violate("layout-edge-ends", cls, "edge refers to shapes that do not exist")
-				return
-			}
-			for _, w := range wps {
-				if math.IsNaN(w.XField) || math.IsInf(w.XField, 0) || math.IsNaN(w.YField) || math.IsInf(w.YField, 0) {
-					v.Violate("layout-non-finite", cls, "edge waypoint is not finite")
-					return
-				}
-			}
-			if !onBorder(src, wps[0].XField, wps[0].YField) {
-				v.Violate("layout-edge-ends", "source", "edge starts at (%v,%v), not on its source shape %v", wps[0].XField, wps[0].YField, src)
-				return
-			}
-			l := wps[len(wps)-1]
-			if !onBorder(dst, l.XField, l.YField) {
-				v.Violate("layout-edge-ends", "target", "edge ends at (%v,%v), not on its target shape %v", l.XField, l.YField, dst)
-				return
-			}
-		}
-		// no two shapes overlap when the gaps are at least the node sizes
-		if cfg.ColumnGap >= 120 && cfg.RowGap >= 100 && cfg.ProcessGap >= 0 {
-			keys := make([]string, 0, len(shapes))
-			for k := range shapes {
-				keys = append(keys, k)
-			}
-			sort.Strings(keys)
-			for i := 0; i < len(keys); i++ {
-				for j := i + 1; j < len(keys); j++ {
-					a, b := shapes[keys[i]], shapes[keys[j]]
-					ox := math.Min(a.x+a.w, b.x+b.w) - math.Max(a.x, b.x)
-					oy := math.Min(a.y+a.h, b.y+b.h) - math.Max(a.y, b.y)
-					if ox > 1e-6 && oy > 1e-6 {
-						v.Violate("layout-overlap", cls, "shapes %s %v and %s %v overlap (gaps %v/%v/%v)", keys[i], a, keys[j], b, cfg.ColumnGap, cfg.RowGap, cfg.ProcessGap)
-						return
-					}
-				}
-			}
-		}
-		v.Add("shapes", nShapes)
-	} else if len(c.Procs) > 0 {
-		v.Violate("layout-missing", cls, "AutoLayout produced no diagram")
+	if !c19Layout(v, cls, defs, cfg, len(c.Procs) > 0) {
 		return
 	}
 	// 4. XML round trip (C15's oracle)
@@ -405,6 +325,137 @@ func c19Build(c *c19Case, env *fw.Env, v *fw.V) {
 	v.Add("activities", nact)
 }
 
+// c19Layout: one shape per top-level flow node, one edge per sequence flow, finite coordinates, edges
+// starting on their source shape and ending on their target shape, no two shapes overlapping when the gaps
+// are at least the node sizes.
+func c19Layout(v *fw.V, cls string, defs *schema.Definitions, cfg *schema.AutoLayoutConfig, wantDiagram bool) bool {
+	if d := defs.DiagramField; d != nil && d.BPMNPlaneField != nil {
+		shapes := map[string]rect{}
+		nShapes := 0
+		for i := range d.BPMNPlaneField.BPMNShapeFields {
+			sh := &d.BPMNPlaneField.BPMNShapeFields[i]
+			nShapes++
+			b := sh.BoundsField
+			if b == nil {
+				v.Violate("layout-no-bounds", cls, "shape without bounds")
+				return false
+			}
+			r := rect{b.XField, b.YField, b.WidthField, b.HeightField}
+			for _, f := range []float64{r.x, r.y, r.w, r.h} {
+				if math.IsNaN(f) || math.IsInf(f, 0) {
+					v.Violate("layout-non-finite", cls, "shape %v has a non-finite coordinate", r)
+					return false
+				}
+			}
+			shapes[string(*sh.BpmnElementField)] = r
+		}
+		nNodes, nFlows := 0, 0
+		for pi := range *defs.Processes() {
+			p := &(*defs.Processes())[pi]
+			for _, fe := range p.FlowElements() {
+				if _, ok := fe.(schema.FlowNodeInterface); ok {
+					nNodes++
+				}
+			}
+			nFlows += len(*p.SequenceFlows())
+		}
+		if nShapes != nNodes || len(shapes) != nNodes {
+			v.Violate("layout-shape-count", cls, "%d shapes (%d distinct elements) for %d flow nodes", nShapes, len(shapes), nNodes)
+			return false
+		}
+		if ne := len(d.BPMNPlaneField.BPMNEdgeFields); ne != nFlows {
+			v.Violate("layout-edge-count", cls, "%d edges for %d sequence flows", ne, nFlows)
+			return false
+		}
+		onBorder := func(r rect, x, y float64) bool {
+			const eps = 1e-6 * 1e6
+			inX := x >= r.x-eps && x <= r.x+r.w+eps
+			inY := y >= r.y-eps && y <= r.y+r.h+eps
+			onV := math.Abs(x-r.x) <= eps || math.Abs(x-(r.x+r.w)) <= eps
+			onH := math.Abs(y-r.y) <= eps || math.Abs(y-(r.y+r.h)) <= eps
+			return inX && inY && (onV || onH)
+		}
+		for i := range d.BPMNPlaneField.BPMNEdgeFields {
+			e := &d.BPMNPlaneField.BPMNEdgeFields[i]
+			wps := e.WaypointField
+			if len(wps) < 2 {
+				v.Violate("layout-edge-waypoints", cls, "edge with %d waypoints", len(wps))
+				return false
+			}
+			src, ok1 := shapes[string(*e.SourceElementField)]
+			dst, ok2 := shapes[string(*e.TargetElementField)]
+			if !ok1 || !ok2 {
+				v.Violate("layout-edge-ends", cls, "edge refers to shapes that do not exist")
+				return false
+			}
+			for _, w := range wps {
+				if math.IsNaN(w.XField) || math.IsInf(w.XField, 0) || math.IsNaN(w.YField) || math.IsInf(w.YField, 0) {
+					v.Violate("layout-non-finite", cls, "edge waypoint is not finite")
+					return false
+				}
+			}
+			if !onBorder(src, wps[0].XField, wps[0].YField) {
+				v.Violate("layout-edge-ends", "source", "edge starts at (%v,%v), not on its source shape %v", wps[0].XField, wps[0].YField, src)
+				return false
+			}
+			l := wps[len(wps)-1]
+			if !onBorder(dst, l.XField, l.YField) {
+				v.Violate("layout-edge-ends", "target", "edge ends at (%v,%v), not on its target shape %v", l.XField, l.YField, dst)
+				return false
+			}
+		}
+		// no two shapes overlap when the gaps are at least the node sizes
+		if cfg.ColumnGap >= 120 && cfg.RowGap >= 100 && cfg.ProcessGap >= 0 {
+			keys := make([]string, 0, len(shapes))
+			for k := range shapes {
+				keys = append(keys, k)
+			}
+			sort.Strings(keys)
+			for i := 0; i < len(keys); i++ {
+				for j := i + 1; j < len(keys); j++ {
+					a, b := shapes[keys[i]], shapes[keys[j]]
+					ox := math.Min(a.x+a.w, b.x+b.w) - math.Max(a.x, b.x)
+					oy := math.Min(a.y+a.h, b.y+b.h) - math.Max(a.y, b.y)
+					if ox > 1e-6 && oy > 1e-6 {
+						v.Violate("layout-overlap", cls, "shapes %s %v and %s %v overlap (gaps %v/%v/%v)", keys[i], a, keys[j], b, cfg.ColumnGap, cfg.RowGap, cfg.ProcessGap)
+						return false
+					}
+				}
+			}
+		}
+		v.Add("shapes", nShapes)
+	} else if wantDiagram {
+		v.Violate("layout-missing", cls, "AutoLayout produced no diagram")
+		return false
+	}
+	return true
+}
+
+func c19Graph(c *c19Case, v *fw.V) {
+	g := gen.Lower("p", c.AST)
+	parsed, _, err := step.Parse(g)
+	if err != nil {
+		v.Inconclusive("parse", "%v", err)
+		return
+	}
+	var cfg *schema.AutoLayoutConfig
+	if c.Layout == nil {
+		cfg = schema.DefaultAutoLayoutConfig()
+	} else {
+		cfg = &schema.AutoLayoutConfig{StartX: c.Layout[0], StartY: c.Layout[1], ColumnGap: c.Layout[2], RowGap: c.Layout[3], ProcessGap: c.Layout[4]}
+	}
+	db := schema.NewDefinitionsBuilder()
+	db.AddProcess((*parsed.Processes())[0])
+	db.AutoLayout(cfg)
+	if c.Twice {
+		db.AutoLayout(cfg)
+	}
+	defs := db.Out()
+	if c19Layout(v, "graph", defs, cfg, true) {
+		v.Add("graphs", 1)
+	}
+}
+
 func indexOf(s, sub string) int {
 	for i := 0; i+len(sub) <= len(s); i++ {
 		if s[i:i+len(sub)] == sub {
@@ -443,9 +494,12 @@ func init() {
 				v.Inconclusive("descriptor", "%v", err)
 				return v
 			}
-			if cc.Kind == "rawids" {
+			switch cc.Kind {
+			case "rawids":
 				c19Raw(&cc, v)
-			} else {
+			case "graph":
+				c19Graph(&cc, v)
+			default:
 				c19Build(&cc, env, v)
 			}
 			v.Nontrivial = true
